@@ -436,6 +436,9 @@ func (r *runner) hit(key, what string) {
 	if r.seenHit[key] {
 		return
 	}
+	if len(what) > 1600 {
+		what = what[:1600] + " …"
+	}
 	r.seenHit[key] = true
 	r.hits = append(r.hits, corr.Hit{Key: key, What: what})
 }
